@@ -147,14 +147,14 @@ UNPROVED = (
     "(stems_prefix_of_under_psl: equal hosts of any kind, or DNS names without leading / trailing dot and without '%') and demanded by the oracle. "
     "It is counted in the distribution as 'pairs-kf-region' and explored by the oracle only for the converse. "
     "For a STRICT subdomain the suffix-aware forward theorems with suffix_trie.py inside keep the hypothesis 'DNS names' (dnsName: no leading / "
-    "trailing dot, no '%') although, since the fix FX-C12-EMPTYLABELS, the code and the abstract theorems (stems_prefix_of_under_partial / _sub, given "
+    "trailing dot, no '%') although, since the fix FX-C12-ed8ae90, the code and the abstract theorems (stems_prefix_of_under_partial / _sub, given "
     "SameSuffixSplit) no longer need 'no trailing dot': what is missing is the list-side lemma 'a subdomain outside the public suffix has the parent's "
     "suffix' (hostLen_subdomain, sameSuffixSplit_of_outside) for hostnames spelled with trailing dots — not proved; such pairs (http://a.co.uk. / "
     "http://b.a.co.uk.) are corpus cases demanded by the oracle (same public suffix by the list) and a Lean example (converse_former_witness). "
     "The suffix-aware converse (under_of_stems_prefix_sa) takes SplitLaw for both hosts as a hypothesis; with suffix_trie.py inside it is a theorem on "
     "EVERY netloc of the grammar (splitLaw_psl, no host condition), so under_of_stems_prefix_psl / _psl_string have no hypothesis about the split: the "
     "former counterexample http://a.co.uk. (which had the suffix-aware stems of http://a.co.uk: converse_needs_splitLaw, the loss KF-C12-2, repaired by "
-    "FX-C12-EMPTYLABELS) is now the Lean example converse_former_witness and a corpus batch. "
+    "FX-C12-ed8ae90) is now the Lean example converse_former_witness and a corpus batch. "
     "url_to_lru_prefix_iff (stem prefix <=> string prefix of url_to_lru) is for suffix_aware=False and any split_suffix; "
     "url_to_lru_prefix_iff_psl for both modes with suffix_trie.py inside"
 )
@@ -206,7 +206,7 @@ CORPUS = [
     {"u": "http://a.com/", "vs": ["http://a.com/x", "http://a.com//x", "http://a.com/", "http://a.com/?q=1", "http://www.a.com/"], "sa": False},
     {"u": "http://a.com/a/", "vs": ["http://a.com/a/b", "http://a.com/a//b", "http://a.com/a/?q#f", "http://a.com/a"], "sa": True},
     {"u": "http://a.co.uk", "vs": ["http://www.a.co.uk//x", "http://a.co.uk/", "http://a.co.uk//"], "sa": True},
-    # FX-C12-EMPTYLABELS (formerly KF-C12-2): hosts with trailing dots / a lone leading dot.  The root label is a stem of
+    # FX-C12-ed8ae90 (formerly KF-C12-2): hosts with trailing dots / a lone leading dot.  The root label is a stem of
     # its own in both modes: http://a.co.uk. is no ancestor of http://a.co.uk/x any more (converse), it is one of
     # http://a.co.uk./x and of http://b.a.co.uk. (forward: same public suffix by the list)
     {"u": "http://a.co.uk.", "vs": ["http://a.co.uk/x", "http://a.co.uk./x", "http://b.a.co.uk.", "http://b.a.co.uk", "http://a.co.uk", "http://a.co.uk..", "http://.a.co.uk.", "http://A.CO.UK./x?q#f"], "sa": True},
